@@ -26,11 +26,12 @@ fn tok_cfg() -> TokenizerConfig {
     }
 }
 
-fn pipeline(kind: &str, chars: &PathBuf, missp: &PathBuf) -> TrainPipelineConfig {
+/// `temp`: the temperature of the artificial spelling corruption (it shapes the weights of the edit tables)
+fn pipeline(kind: &str, chars: &PathBuf, missp: &PathBuf, temp: f64) -> TrainPipelineConfig {
     let ws = PreprocessingFnConfig::WhitespaceCorruption(Part::Input, 0.3, 0.3, true);
-    let spell = PreprocessingFnConfig::SpellingCorruption(Part::Input, 0.8, true, SpellingCorruptionMode::Artificial(0.5, 2.0, Some(chars.clone())));
+    let spell = PreprocessingFnConfig::SpellingCorruption(Part::Input, 0.8, true, SpellingCorruptionMode::Artificial(0.5, temp, Some(chars.clone())));
     let real = PreprocessingFnConfig::SpellingCorruption(Part::Input, 0.9, true, SpellingCorruptionMode::Realistic(missp.clone()));
-    let mixed = PreprocessingFnConfig::SpellingCorruption(Part::Input, 0.9, false, SpellingCorruptionMode::Mixed(0.5, 0.4, 2.0, Some(chars.clone()), missp.clone()));
+    let mixed = PreprocessingFnConfig::SpellingCorruption(Part::Input, 0.9, false, SpellingCorruptionMode::Mixed(0.5, 0.4, temp, Some(chars.clone()), missp.clone()));
     let pre = match kind {
         "ws" => ws,
         "spell" => spell,
@@ -44,7 +45,7 @@ fn pipeline(kind: &str, chars: &PathBuf, missp: &PathBuf) -> TrainPipelineConfig
     let preprocessing = if kind == "persource" {
         PreprocessingConfig::PerSource(vec![
             PreprocessingFnConfig::WhitespaceCorruption(Part::Input, 0.3, 0.3, true),
-            PreprocessingFnConfig::SpellingCorruption(Part::Input, 0.8, true, SpellingCorruptionMode::Artificial(0.5, 2.0, Some(chars.clone()))),
+            PreprocessingFnConfig::SpellingCorruption(Part::Input, 0.8, true, SpellingCorruptionMode::Artificial(0.5, temp, Some(chars.clone()))),
             PreprocessingFnConfig::None,
         ])
     } else {
@@ -122,6 +123,7 @@ pub fn exec(case: &Value) -> Vec<Value> {
         Ok(Err(e)) => st = format!("err:chars:{e}"),
         Err(m) => st = format!("panic:chars:{m}"),
     }
+    let _ = std::fs::copy(&chars, fresh_dir.join("chars.txt"));
     let missp = dir.join("missp.json");
     std::fs::write(&missp, r#"{"alpha": ["alhpa", "alpa", "allpha"], "beta": ["bta", "betta"], "gamma": ["gama"], "x": ["y"]}"#).unwrap();
 
@@ -147,7 +149,11 @@ pub fn exec(case: &Value) -> Vec<Value> {
                 })));
             }
             let r = guard(|| {
-                train_loader(if get_bool(run, "ref") { fresh_files.clone() } else { files.clone() }, pipeline(pkind, &chars, &missp), strategy, threads, get_u(run, "buffer"),
+                // the temperature changes with the epoch of the group; the reference run reads the character dictionary, too,
+                // under a path the process has not seen (tables remembered for the re-used path must not show)
+                let temp = if epoch % 2 == 0 { 2.0 } else { 0.6 };
+                let chars_here = if get_bool(run, "ref") { fresh_dir.join("chars.txt") } else { chars.clone() };
+                train_loader(if get_bool(run, "ref") { fresh_files.clone() } else { files.clone() }, pipeline(pkind, &chars_here, &missp, temp), strategy, threads, get_u(run, "buffer"),
                     get_u(run, "batch_limit"), if get_str(run, "ltype") == "padded" { BatchLimitType::PaddedItemSize } else { BatchLimitType::BatchSize },
                     512, shuffle, get_u(run, "prefetch"), get_bool(run, "sort"), if no_seed { None } else { Some(seed) }, get_u(run, "skip"), limit,
                     if world > 1 || get_bool(run, "distributed") { Some((rank, world)) } else { None }, epoch, get_u(run, "ff"), usize::MAX)
